@@ -520,3 +520,34 @@ for q in ('q', 'SoR', 'HoRT', 'GoRT', 'CpoR'):
 
 from contracts import helpers
 helpers.install(P, 'kwargs', 'numpy_op', ('convert_unit', [('bar', ['Pa']), ('g', ['kg']), ('amu', ['kg']), ('A2', ['m2'])]))
+
+# ---- many vibrational modes (declared bounded: the same textbook clauses run natively on samples; never counted as proved) ------
+MODES = [7, 12, 30, 90]
+
+
+def hv_n(n):
+    return Fields(V + 'HarmonicVib', _valid_vib_temperatures=RealVec(n, 15., 6500.))
+
+
+def qr_n(n):
+    return Fields(V + 'QRRHOVib', _valid_vib_temperatures=RealVec(n, 15., 6500.), _valid_scaled_wavenumbers=RealVec(n, 0.01, 1.),
+                  _valid_scaled_inertia=RealVec(n, 1e-47, 1e-44))
+
+
+for q, f in (('UoRT', 'ho_U(%s / T)' % THETA), ('CvoR', 'ho_Cv(%s / T)' % THETA), ('SoR', 'ho_S(%s / T)' % THETA)):
+    contract(V + 'HarmonicVib.get_' + q, P, label='many-modes', shapes=dict(n=MODES), native_only=True,
+             args=lambda n: dict(self=hv_n(n), T=T), requires=['T > 0'],
+             ensures=[('textbook', 'result == np.sum(%s%s)' % (S, f))])
+for q, f in (('UoRT', 'qrrho_U(%s / T, %s)' % (THETA, W)), ('CvoR', 'qrrho_Cv(%s / T, %s)' % (THETA, W)),
+             ('SoR', "qrrho_S(%s / T, %s, %s, T, const.kb('J/K'), const.h('J s'))" % (THETA, W, MU))):
+    contract(V + 'QRRHOVib.get_' + q, P, label='many-modes', shapes=dict(n=MODES), native_only=True,
+             args=lambda n: dict(self=qr_n(n), T=T), requires=['T > 0'],
+             ensures=[('textbook', 'result == np.sum(%s%s)' % (S, f))])
+for cls_ in ('HarmonicVib', 'QRRHOVib'):
+    contract(V + cls_ + '.__init__', P, label='cache,many-modes', shapes=dict(n=[7, 12, 40]), native_only=True,
+             args=lambda n, cls_=cls_: dict(self=Fields(V + cls_), vib_wavenumbers=RealList(n, -500., 4500.), imaginary_substitute=Real(10., 200.)),
+             requires=['imaginary_substitute > 0'],
+             ensures=[('valid-wavenumbers', 'list(self._valid_vib_wavenumbers) == spec.statmech.valid_wavenumbers(vib_wavenumbers, imaginary_substitute)'),
+                      ('valid-temperatures', 'all(self._valid_vib_temperatures[k] == const.wavenumber_to_temp(self._valid_vib_wavenumbers[k])'
+                                             ' for k in range(len(self._valid_vib_wavenumbers)))')],
+             cross_check=False)
